@@ -1324,6 +1324,8 @@ class Machine:
         # ---- slices / vectors
         if end in ("join", "concat") and ("slice::" in c or "str::" in c or "Join" in c) and type(a0) is list:
             # [String]::join(sep) / concat(): the pieces may be texts with holes
+            if end == "concat" and all(type(x) is list for x in a0):
+                return [y for x in a0 for y in x]                   # [Vec<T>]::concat(): the vectors one after the other
             sep = a[1] if end == "join" and len(a) > 1 else ""
             sep = chr(sep) if isinstance(sep, int) and not isinstance(sep, bool) else sep
             if not isinstance(sep, str) or not all(isinstance(x, (str, Text)) for x in a0):
@@ -1609,6 +1611,18 @@ class Machine:
             if isinstance(a0, Map):
                 return a0.d.pop(key_of(a[1]), None) is not None
             return NOT
+        if m("HashMap::retain", "HashSet::retain") and len(a) == 2:
+            if isinstance(a0, Map):
+                # keeps the entries the predicate accepts (each asked once, in no particular order)
+                for k_ in list(a0.d):
+                    kk_, vv_ = a0.d[k_]
+                    keep_ = self.call_value(a[1], [kk_, vv_] if "HashMap" in c else [kk_])
+                    if keep_ is False:
+                        del a0.d[k_]
+                    elif keep_ is not True:
+                        raise Stuck("retain: the predicate's answer for an entry is not known")
+                return []
+            raise Stuck("retain on a map that is not known")
         # ---- comparisons
         if end in ("eq", "ne") and ("PartialEq" in c or "cmp::impls" in c or "str::traits" in c) and len(a) == 2:
             r = veq(a0, a[1])
